@@ -204,6 +204,16 @@ func spawnScenario(fromEffect bool, bound int) *vsched.Scenario {
 			vsched.Event("orphan", orphan.GetParent() == nil, parent.GetChild(orphan.GetID()) == nil)
 			orphan.Send(9)
 			vsched.Event("orphan-got", <-orphanDone)
+			// an OPEN actor whose parent (and grandparent) is closed still registers what it spawns: the rule is
+			// about the spawning actor itself being closed
+			lateDone := make(chan int, 1)
+			late := grand.Spawn(func(self *fpgo.ActorDef[int], m int) { lateDone <- m })
+			vsched.Event("under-open-actor-with-closed-ancestor", late.GetParent() == grand, grand.GetChild(late.GetID()) == late)
+			child.Close()
+			late2 := grand.Spawn(func(self *fpgo.ActorDef[int], m int) { lateDone <- m })
+			vsched.Event("under-open-actor-with-closed-parent", late2.GetParent() == grand, grand.GetChild(late2.GetID()) == late2)
+			late.Send(10)
+			vsched.Event("late-got", <-lateDone)
 		},
 		Check: func(r *vsched.Result) []vsched.Failure {
 			fs := e1.Basic("C12", "spawn", r, nil)
@@ -214,7 +224,8 @@ func spawnScenario(fromEffect bool, bound int) *vsched.Scenario {
 				kind string
 				args []interface{}
 			}{{"parent-got", []interface{}{2, true}}, {"parent-got", []interface{}{3, true}}, {"child-got", []interface{}{7, true}}, {"child-got", []interface{}{8, true}},
-				{"parent-saw-child", nil}, {"reg", []interface{}{true, true, true}}, {"reg-grand", []interface{}{true, true, true}}, {"orphan", []interface{}{true, true}}, {"orphan-got", []interface{}{9}}}
+				{"parent-saw-child", nil}, {"reg", []interface{}{true, true, true}}, {"reg-grand", []interface{}{true, true, true}}, {"orphan", []interface{}{true, true}}, {"orphan-got", []interface{}{9}},
+				{"under-open-actor-with-closed-ancestor", []interface{}{true, true}}, {"under-open-actor-with-closed-parent", []interface{}{true, true}}, {"late-got", []interface{}{10}}}
 			for _, w := range want {
 				if n := e1.Count(r, w.kind, w.args...); n != 1 || (w.args == nil && e1.Count(r, w.kind) != 1) {
 					fs = append(fs, e1.Fail("C12|spawn|"+w.kind, "expected exactly one %s%v, events: %v", w.kind, w.args, r.Events))
